@@ -6,7 +6,17 @@ from fractions import Fraction
 from pv import gallina as G
 from pv.canon import B, T, outcome, unB
 
+import resource
+
 ID = "C09"
+# The large-table cases evaluate the (structurally recursive, not tail-recursive) model on files of 30-70 KB inside coqc:
+# that needs more than the default 8 MB stack.  Raised here, in the vcheck process, so that the coqc children inherit it.
+try:
+    _soft, _hard = resource.getrlimit(resource.RLIMIT_STACK)
+    if _soft != _hard:
+        resource.setrlimit(resource.RLIMIT_STACK, (_hard, _hard))
+except (ValueError, OSError):      # pragma: no cover
+    pass
 COQ_REQUIRE = "C09.Run"
 SHARD = 60
 LEGACY_STRIP = False  # model parameter: True = code before fix e02f4b0 (name = line[:colon].strip())
@@ -28,9 +38,17 @@ RULE = ("/proc/net/dev files printed by the kernel printer of coq/C09/Spec.v fro
         "net_io_counters(pernic=...) / disk_io_counters(perdisk=...) with the DEFAULT arguments over changing files: devices "
         "vanish for a poll and come back lower or higher, a poll lists nothing at all, pernic/perdisk alternate, counters of a "
         "device listed in consecutive polls never decrease (class steady/emptypoll: every poll must equal that poll's kernel "
-        "counters) or do decrease (class wrap: compared with the _WrapNumbers model only). A case is non-trivial when at least one interface/device/non-zero "
+        "counters) or do decrease (class wrap: compared with the _WrapNumbers model only). Large tables generated inside Gallina "
+        "from a compact seed (device k = 'd<k>', counters 1000k+j or 2^64-1-(32k+j)): /proc/diskstats of exactly 32768 bytes, "
+        "with a line ending exactly at byte 32768 and 40 more lines, of 65537 bytes (625 lines), of 131 lines of 64-bit-wide "
+        "counters (49 KB), a 150-interface wide /proc/net/dev with a line ending at 32768, a /sys/block of 150 disks "
+        "(thorough: also 32767/32769/65536, 450 lines, 400 interfaces, 300 disks); every listed device must appear per-disk and "
+        "the total must be the sum over all whole disks. A case is non-trivial when at least one interface/device/non-zero "
         "block count/byte is present; distinct = distinct canonical case hash.")
-TRUSTED = ["correspondence harness props/C09.py + pv/ (fake /proc/net/dev, /proc/diskstats, /sys/block via pv.shim, os.statvfs patch)",
+TRUSTED = ["for the large-table cases the file bytes are rebuilt by a Python printer and accepted only when length and a 61-bit "
+           "polynomial checksum equal those of the bytes the Coq kernel printer produced (printing 50 000 list elements in coqc "
+           "costs seconds); the coqc children run with the stack limit raised (props/C09.py sets RLIMIT_STACK)",
+           "correspondence harness props/C09.py + pv/ (fake /proc/net/dev, /proc/diskstats, /sys/block via pv.shim, os.statvfs patch)",
            "kernel formats of /proc/net/dev (net/core/net-procfs.c), dev_valid_name (net/core/dev.c), /proc/diskstats and "
            "/sys/block/*/stat (Documentation/admin-guide/iostats.rst, 2.4 /proc/partitions) transcribed in coq/C09/Spec.v",
            "hand-written model coq/C09/Model.v + Text.v of _pslinux.net_io_counters/disk_io_counters/is_storage_device, the "
@@ -54,7 +72,7 @@ EXHAUSTIVE = {"quick": "every diskstats layout (14,18,20,22,15,7 fields) x {whol
                        "every single-column perturbation of one /proc/net/dev line (16 columns) and one diskstats line (11 columns); "
                        "every str blank code point except tab/newline/space/NBSP at the end of and inside an interface name; "
                        "str.isspace() over all 1114112 code points against Text.is_uws",
-              "thorough": "same enumerations, plus all pairs of layouts in two-line files"}
+              "thorough": "same enumerations, plus all pairs of layouts in two-line files and the full set of large-table sizes"}
 
 U64 = 2 ** 64 - 1
 VALS = [0, 0, 1, 2, 7, 99, 4096, 2 ** 31 - 1, 2 ** 31, 2 ** 32, 2 ** 32 + 5, 2 ** 53 + 1, 2 ** 63 - 1, 2 ** 63, U64, U64, 2 ** 64,
@@ -238,6 +256,112 @@ def _mutate_line(rng, line):
     return " ".join(toks)
 
 
+# ------------------------------------------------------------------ large tables (mirror of big_disks / big_nics of coq/C09/Run.v)
+def _big_val(wide, k, j):
+    return U64 - (k * 32 + j) if wide else 1000 * k + j
+
+
+NET_W = [7, 7, 4, 4, 4, 5, 10, 9, 8, 7, 4, 4, 4, 5, 7, 10]
+
+
+def _big_disk_line(k, wide, pad):
+    fields = [_big_val(wide, k, j) for j in range(11)] + ([_big_val(wide, k, j) for j in range(11, 17)] if wide else [0] * 6)
+    return "%4d %7d d%d%s%s\n" % (8, k, k, "x" * pad, "".join(" %d" % f for f in fields))
+
+
+def _big_disk_line_len(k, wide, pad):
+    return len(_big_disk_line(k, wide, pad))
+
+
+def _pads(case):
+    return {a: b for a, b in case.get("pads", [])}
+
+
+def _big_disk_text(case):
+    pads = _pads(case)
+    return "".join(_big_disk_line(k, case["wide"], pads.get(k, 0)) for k in range(case["n"])).encode()
+
+
+NET_H1 = "Inter-|   Receive                                                |  Transmit\n"
+NET_H2 = " face |bytes    packets errs drop fifo frame compressed multicast|bytes    packets errs drop fifo colls carrier compressed\n"
+
+
+def _big_nic_line(k, wide, pad):
+    return "%6s:%s\n" % ("n%d%s" % (k, "x" * pad), "".join(" %*d" % (w, _big_val(wide, k, j)) for j, w in enumerate(NET_W)))
+
+
+def _big_net_text(case):
+    pads = _pads(case)
+    return (NET_H1 + NET_H2 + "".join(_big_nic_line(k, case["wide"], pads.get(k, 0)) for k in range(case["n"]))).encode()
+
+
+def _big_sys_ents(case):
+    out = []
+    for k in range(case["n"]):
+        f = [_big_val(False, k, j) for j in range(11)]
+        out.append((("d%d" % k).encode(), ("%8d" % f[0] + "".join(" %8d" % x for x in f[1:]) + "\n").encode()))
+    return out
+
+
+def _cksum(b):
+    a = 7
+    for x in b:
+        a = (a * 131 + x + 1) % 2305843009213693951
+    return a
+
+
+def _big_file(case):
+    k = case["kind"]
+    if k == "diskbig":
+        return _big_disk_text(case)
+    if k == "netbig":
+        return _big_net_text(case)
+    return b"".join(n + b"\x00" + c for n, c in _big_sys_ents(case))
+
+
+NET_HDR = 77 + 123        # the two header lines of /proc/net/dev with their newlines
+
+
+def _big_nic_line_len(k, wide, pad):
+    return len(_big_nic_line(k, wide, pad))
+
+
+def _fit(line_len, wide, target, base=0, extra_lines=0):
+    """number of lines and the name padding of line 0 such that the first lines end exactly at [target] bytes"""
+    n, size = 0, base
+    while size + line_len(n, wide, 0) <= target:
+        size += line_len(n, wide, 0)
+        n += 1
+    gap = target - size
+    pad = next(q for q in range(0, 500) if line_len(0, wide, q) - line_len(0, wide, 0) == gap)
+    assert n > 1
+    total = target + sum(line_len(k, wide, 0) for k in range(n, n + extra_lines))
+    return n + extra_lines, ([[0, pad]] if pad else []), total
+
+
+def _big_cases(tier):
+    """quick: file of exactly 32 KiB; a line ending exactly at 32 KiB with more lines after it; 64 KiB + 1 (a line
+    straddles both buffer boundaries); 131 lines of 64-bit-wide counters; a wide /proc/net/dev with a line ending at
+    32 KiB; a /sys/block of 150 disks.  thorough: also 32 KiB +- 1, 64 KiB, 450 ordinary lines, 400 interfaces, 300 disks."""
+    out = []
+    sel = [("32768", 32768, 0), ("lineend-32768", 32768, 40), ("65537", 65537, 0)]
+    if tier == "thorough":
+        sel += [("32767", 32767, 0), ("32769", 32769, 0), ("65536", 65536, 0), ("lineend-65536", 65536, 40)]
+    for tag, target, extra in sel:
+        n, pads, total = _fit(_big_disk_line_len, False, target, 0, extra)
+        out.append({"kind": "diskbig", "cls": "disk-big-" + tag, "n": n, "wide": False, "pads": pads, "size": total})
+    for n, wide in ((131, True),) + (((450, False),) if tier == "thorough" else ()):
+        out.append({"kind": "diskbig", "cls": "disk-big-" + ("wide" if wide else "450"), "n": n, "wide": wide, "pads": [],
+                    "size": sum(_big_disk_line_len(k, wide, 0) for k in range(n))})
+    n, pads, total = _fit(_big_nic_line_len, True, 32768, NET_HDR, 30)
+    out.append({"kind": "netbig", "cls": "net-big-lineend-32768", "sp": True, "n": n, "wide": True, "pads": pads, "size": total})
+    if tier == "thorough":
+        out.append({"kind": "netbig", "cls": "net-big-400", "sp": True, "n": 400, "wide": False, "pads": [],
+                    "size": NET_HDR + sum(_big_nic_line_len(k, False, 0) for k in range(400))})
+    out.append({"kind": "sysbig", "cls": "sysfs-big", "n": 300 if tier == "thorough" else 150})
+    return out
+
+
 def _bump(rng, vec):
     """counters of a device that stays listed: none decreases"""
     return [v + rng.choice([0, 0, 1, 7, 1000, 2 ** 32]) for v in vec]
@@ -317,6 +441,9 @@ def gen_cases(rng, tier):
     cases = []
     add = cases.append
 
+    # ---- large tables: files beyond the 32 KiB read buffer (sizes around 32 KiB / 64 KiB, a line ending exactly at the
+    # boundary, a line straddling it, 450 ordinary lines, 131 lines of 64-bit-wide counters), generated inside Gallina
+    big = _big_cases(tier) if tier != "search" else []
     # ---- exhaustive small parts
     if tier != "search":
         for lay in LAYS:
@@ -361,7 +488,7 @@ def gen_cases(rng, tier):
             b"\xe2\x80\xa9", b"\xe2\x80\xaf", b"\xe2\x81\x9f", b"\xe3\x80\x80", b"\xe1\xa0\x8e", b"\xe2\x80\x8b", b"\xef\xbb\xbf",
             b"\xed\xa0\x80", b"\xed\x9f\xbf", b"\xe0\x80\x80", b"\xe0\xa0\x80", b"\xf0\x90\x80\x80", b"\xf0\x8f\xbf\xbf",
             b"\xf4\x8f\xbf\xbf", b"\xf4\x90\x80\x80", b"\xf5", b"\xc0\x80", b"\xc1\xbf", b"\xdf\xbf", b"\xff", b"\xfe", b"\xf0\x9f\x98"]
-    for _ in range(40 * N):
+    for _ in range(30 * N):
         if rng.random() < 0.7:
             b = b"".join(rng.choice(frag) for _ in range(rng.randint(0, 12)))
         else:
@@ -369,7 +496,7 @@ def gen_cases(rng, tier):
                       for _ in range(rng.randint(1, 10)))
         add({"kind": "dec", "cls": "text-layer" if b else "trivial", "content": b.hex()})
     # ---- /proc/net/dev
-    for _ in range(70 * N):
+    for _ in range(45 * N):
         n = rng.choice([0, 1, 1, 2, 3, 5, 8, 12])
         mode = rng.choice(["rand", "rand", "distinct", "zeros"])
         r = rng.random()
@@ -382,7 +509,7 @@ def gen_cases(rng, tier):
             "-edgeblank" if edge else "-bytes" if nonascii else "")
         add({"kind": "net", "cls": cls, "sp": sp, "ifs": ifs})
     add({"kind": "net", "cls": "trivial", "sp": True, "ifs": []})
-    for _ in range(50 * N):
+    for _ in range(35 * N):
         n = rng.choice([0, 1, 2, 3])
         ifs = [_nic(rng, nm, "rand") for nm in _uniq(rng, NIC_NAMES[:8], n)]
         text = _py_netdev(ifs, rng.random() < 0.8)
@@ -403,7 +530,7 @@ def gen_cases(rng, tier):
                 lines[-1] = lines[-1].rstrip()
         add({"kind": "netraw", "cls": "net-malformed", "content": _enc("\n".join(lines)).hex()})
     # ---- /proc/diskstats
-    for _ in range(100 * N):
+    for _ in range(60 * N):
         devs, others = _disk_file(rng, allow24=True)
         if not _fs_safe(devs):
             continue
@@ -413,7 +540,7 @@ def gen_cases(rng, tier):
             "-sysmismatch" if any(o in [_sysname(d["name"]) for d in devs] for o in others) else "") + ("-many" if len(devs) >= 6 else "")
         add({"kind": "disk", "cls": cls, "devs": devs, "others": others})
     add({"kind": "disk", "cls": "trivial", "devs": [], "others": []})
-    for _ in range(50 * N):
+    for _ in range(35 * N):
         devs, others = _disk_file(rng, allow24=True, n=rng.choice([1, 2, 3]))
         if not _fs_safe(devs):
             continue
@@ -446,12 +573,12 @@ def gen_cases(rng, tier):
         add({"kind": "sysraw", "cls": "sysfs-malformed", "ents": [["sda", _enc(content).hex()]], "listing": ["sda"]})
     add({"kind": "nosource", "cls": "nosource"})
     # ---- successive polls with the default arguments (nowrap=True)
-    for _ in range(30 * N):
+    for _ in range(22 * N):
         add(_net_hist(rng))
-    for _ in range(24 * N):
+    for _ in range(18 * N):
         add(_disk_hist(rng))
     # ---- disk_usage
-    for _ in range(80 * N):
+    for _ in range(55 * N):
         fr = rng.choice([1, 512, 1024, 4096, 4096, 65536, 2 ** 20])
         k = rng.random()
         if k < 0.1:
@@ -483,6 +610,10 @@ def gen_cases(rng, tier):
     for blocks, bfree, bavail in ((1000, 995, 0), (2000, 1999, 0), (8, 7, 0), (40, 39, 0), (1000, 0, 0), (3, 2, 1), (3, 1, 1), (7, 3, 2)):
         add({"kind": "usage", "cls": "usage-tie", "bsize": rng.choice([4096, 1048576, 512]), "frsize": 4096, "blocks": blocks,
              "bfree": bfree, "bavail": bavail})
+    # the large tables are expensive to evaluate in coqc: spread them, one per shard of cases
+    step = max(1, len(cases) // max(1, len(big)))
+    for j, b in enumerate(big):
+        cases.insert(min(len(cases), j * (step + 1)), b)
     return cases
 
 
@@ -526,6 +657,14 @@ def coq_term(case):
                                       G.lst([G.by(o) for o in case["listing"]]))
     if k == "nosource":
         return "run_nosource"
+    if k == "diskbig":
+        return "run_disk_big %d%%nat %s %s" % (case["n"], G.bo(case["wide"]),
+                                              G.lst(["(%d, %d%%nat)" % (a, b) for a, b in case["pads"]]))
+    if k == "netbig":
+        return "run_net_big %s %s %d%%nat %s %s" % (G.bo(LEGACY_STRIP), G.bo(case["sp"]), case["n"], G.bo(case["wide"]),
+                                                   G.lst(["(%d, %d%%nat)" % (a, b) for a, b in case["pads"]]))
+    if k == "sysbig":
+        return "run_sys_big %d%%nat" % case["n"]
     if k == "nethist":
         return "run_net_hist %s %s %s" % (G.bo(LEGACY_STRIP), G.bo(case["sp"]), G.lst(
             ["(%s, %s)" % (G.bo(p["per"]), G.lst(["(mk_nic %s %s)" % (G.by(i["name"]), _zs(i["c"])) for i in p["ifs"]]))
@@ -558,6 +697,23 @@ def coq_struct(case, raw):
         return {"printed": raw[0], "model": [raw[1], raw[2]], "spec": spec, "in_domain": raw[5], "dev_valid": raw[6]}
     if k in ("dec", "uws"):
         return {"model": raw, "spec": None}
+    if k in ("diskbig", "netbig", "sysbig"):
+        # the file is rebuilt here with the Python printer and must have the length and checksum of the bytes the
+        # Coq kernel printer produced (fail closed: a drifting mirror is a harness error, never a verdict)
+        mine = _big_file(case)
+        if [len(mine), _cksum(mine)] != raw[0] or (k != "sysbig" and len(mine) != case["size"]):
+            raise RuntimeError("C09: big-table mirror mismatch for %s: python (%d, %d) coq %r" % (case["cls"], len(mine), _cksum(mine), raw[0]))
+        o = 1 if k == "diskbig" else 0
+        model = [raw[1 + o], raw[2 + o]]
+        spec = [raw[3 + o], raw[4 + o]]
+        spec = None if spec[0] is None else [m if (isinstance(sp, dict) and sp.get("t") == "Same") else sp for sp, m in zip(spec, model)]
+        if k == "sysbig":
+            model = [_sort_dict(model[0]), model[1]]
+            spec = None if spec is None else [_sort_dict(spec[0]), spec[1]]
+        d = {"model": model, "spec": spec}
+        if k == "diskbig":
+            d["listing"] = raw[1]
+        return d
     if k == "nethist":
         return {"printed": raw[0], "model": raw[1], "spec": raw[2], "cached": raw[3]}
     if k == "diskhist":
@@ -664,9 +820,19 @@ def _front(r):
     return T("Tuple", _nt(r))
 
 
-def _both(fn, clear, sort=False):
+def _front_c(r):
+    """compact form for the large tables: values only"""
+    if r is None:
+        return None
+    if isinstance(r, dict):
+        return T("Dict", [[[ord(ch) for ch in k], list(v)] for k, v in r.items()])
+    return T("Tuple", list(r))
+
+
+def _both(fn, clear, sort=False, conv=None):
     """[per-device, system-wide], each nowrap=False and cross-checked against nowrap=True on a cleared cache."""
     out = []
+    _front = conv or globals()["_front"]
     for per in (True, False):
         a = outcome(lambda: fn(per, False), _front)
         clear()
@@ -720,6 +886,23 @@ def impl_run(case, coq, env):
     root = _reset_tree(env)
     net = lambda per, nw: psutil.net_io_counters(pernic=per, nowrap=nw)        # noqa: E731
     disk = lambda per, nw: psutil.disk_io_counters(perdisk=per, nowrap=nw)     # noqa: E731
+    if k == "netbig":
+        with open(os.path.join(root, "net", "dev"), "wb") as f:
+            f.write(_big_net_text(case))
+        return _both(net, psutil.net_io_counters.cache_clear, conv=_front_c)
+    if k == "diskbig":
+        with open(os.path.join(root, "diskstats"), "wb") as f:
+            f.write(_big_disk_text(case))
+        _mk_block([unB(x) for x in coq["listing"]])
+        return _both(disk, psutil.disk_io_counters.cache_clear, conv=_front_c)
+    if k == "sysbig":
+        blk = _mk_block([])
+        for name, content in _big_sys_ents(case):
+            dd = os.path.join(os.fsencode(blk), name)
+            os.makedirs(dd)
+            with open(os.path.join(dd, b"stat"), "wb") as f:
+                f.write(content)
+        return _both(disk, psutil.disk_io_counters.cache_clear, sort=True, conv=_front_c)
     if k in ("net", "netraw"):
         content = unB(coq["printed"]) if k == "net" else bytes.fromhex(case["content"])
         with open(os.path.join(root, "net", "dev"), "wb") as f:
@@ -804,7 +987,7 @@ def _text_run(case, env):
 
 
 MANIFEST = {
-    "text": "Theorems (Coq 8.16, 21, closed under the global context) over a hand-written Gallina transcription of the anchored code, "
+    "text": "Theorems (Coq 8.16, 23, closed under the global context) over a hand-written Gallina transcription of the anchored code, "
             "text-mode reading included (UTF-8/surrogateescape decoding, universal newlines, str.split/strip blanks): for every list of "
             "interfaces whose names are any bytes not beginning/ending with a space and without line breaks -- proved to include every "
             "name dev_valid_name() accepts -- and every 16 digit strings per interface (no bound on magnitude or count), parsing the "
@@ -822,6 +1005,8 @@ MANIFEST = {
             "successive calls with the default nowrap=True (_WrapNumbers modelled) report, for every history in which no counter "
             "decreases between consecutive polls while its device is listed, exactly each poll's kernel counters -- devices may vanish, "
             "polls may be empty, devices may come back lower, pernic/perdisk may alternate; "
+            "for any number of lines (no bound, hence no bound on the file size) the file has one line per device and the per-device "
+            "answer one entry per line in file order (exercised on generated tables beyond the 32 KiB read buffer and beyond 64 KiB); "
             "the /sys/block fallback; disk_usage equals total/used/free/percent of the property for every statvfs tuple with f_frsize "
             "as the unit and f_bsize never entering the result, within 0..100 for kernel-shaped tuples. The model is tied to the "
             "real psutil on every run by executing both on kernel-printed and malformed files over a fake /proc and /sys and comparing "
